@@ -1,9 +1,9 @@
 INIT Init
-NEXT NextId
+NEXT Next
 CONSTANTS
-  Params <- MCParamsIdQ
-  Rews = {0}
-  Vals = {0}
+  Params <- MCParamsCol3t
+  Rews = {0,1,2}
+  Vals = {0,1,2}
   MaxT = 3
   Layouts <- UniformLayouts
   Perturb = {0,5}
